@@ -346,6 +346,63 @@ def hdr_check(run):
                         "violations": aviol, "known_seen": {}, "classes": {"argv:cases": len(ares)}, "rule": "generated argument vectors for the tool"})
 
 
+XMOD = os.path.join(common.HARNESS, "xmod")
+
+
+def xmod_build(cfg):
+    """cfg = (toolchain, profile, layout_seed|None); returns (host exe, plugin .so)"""
+    tc, prof, lseed = cfg
+    name = f"{tc}-{prof}" + (f"-rand" if lseed is not None else "")
+    tdir = os.path.join(common.TARGET, "xmod", name)
+    cmd = ["cargo", f"+{tc}", "build", "--offline", "-p", "xplugin", "-p", "xhost", "--target-dir", tdir]
+    if prof == "release":
+        cmd.append("--release")
+    env = dict(common.ENV)
+    if lseed is not None:
+        env["RUSTFLAGS"] = f"-Zrandomize-layout -Zlayout-seed={lseed}"
+    r = common.sh(cmd, cwd=XMOD, timeout=3000, env=env)
+    if r.returncode != 0:
+        raise Infra(f"xmod build {name} failed:\n" + (r.stdout or "")[-3000:])
+    return os.path.join(tdir, prof, "xhost"), os.path.join(tdir, prof, "libxplugin.so"), name + (f"(seed {lseed})" if lseed is not None else "")
+
+
+def c05(run):
+    seed = run.seed
+    ls1, ls2 = 1000 + seed * 7, 2000 + seed * 13
+    if run.tier == "quick":
+        cfgs = {"a": ("stable", "debug", None), "b": ("nightly", "release", ls1)}
+        pairs = [("a", "b"), ("b", "a")]
+        cases = 400
+    else:
+        cfgs = {"a": ("stable", "debug", None), "b": ("nightly", "release", ls1), "c": ("stable", "release", None), "d": ("nightly", "debug", ls2),
+                "e": ("1.98.1", "debug", None), "f": ("1.98.1", "release", None), "g": ("nightly-2026-08-21", "release", ls2 + 1)}
+        import random as _r
+        rr = _r.Random(seed)
+        names = list(cfgs)
+        pairs = [("a", "b"), ("b", "a"), ("e", "c"), ("c", "g"), ("g", "e"), ("f", "d"), ("d", "f")]
+        while len(pairs) < 12:
+            h, p = rr.choice(names), rr.choice(names)
+            if h != p and (h, p) not in pairs:
+                pairs.append((h, p))
+        cases = 3000
+    if run.replay:
+        body = json.load(open(run.replay))
+        ep = body.get("engine_params") or {}
+        if ep.get("pair"):
+            pairs = [tuple(ep["pair"])]
+            cfgs = {k: tuple(v) for k, v in ep["cfgs"].items()}
+    built = {}
+    for k in sorted(set(x for p in pairs for x in p)):
+        built[k] = xmod_build(cfgs[k])
+    for (h, p) in pairs:
+        host, _, hname = built[h]
+        _, plugin, pname = built[p]
+        label = f"host={hname}/plugin={pname}"
+        res = run.run_harness(host, args=["--plugin", plugin, "--label", label, "--cases", str(cases)], timeout=3000, label=f"xmod:{label}")
+        res["_params"] = {"pair": [h, p], "cfgs": {k: list(v) for k, v in cfgs.items()}}
+    run.extra_cov["build_pairs"] = [f"host={built[h][2]} plugin={built[p][2]}" for (h, p) in pairs]
+
+
 def c08(run):
     import gen_c08
     d = gen_c08.make(run.tier)
@@ -365,6 +422,7 @@ def c09(run):
 
 
 PROPS = {
+    "C05": c05,
     "C17": hdr_check,
     "C18": hdr_check,
     "C20": c20,
